@@ -29,7 +29,7 @@ def run(tier):
     stats = {"terminal_sets": 0, "terminals": 0, "lexer_tables": 0, "parser_tables": 0, "hostile": 0, "lexer_vs_nolexer_pairs": 0}
     nontrivial = set()
     # parser-only (-no_lexer) and combined grammars: TokMap + the columns of the action table
-    res = P.run_family(ck, 25 if tier == "quick" else 400, 2, p_err=0.2, want_hist=False)
+    res = P.run_family(ck, 25 if tier == "quick" else 150, 2, p_err=0.2, want_hist=False)
     for r in res:
         if r["rc_a"] != 0:
             continue
@@ -40,7 +40,7 @@ def run(tier):
             ck.violation("correspondence broken: action table columns differ from the model's numbering", {"bnf": r["text"], "impl": r["impl_lrtab"], "model": r["model_lrtab"],
                                                                                                          "unchecked": "correspondence Gocc.genParser"}, found_input=False)
     # lexer-only and lexer+string-literal grammars: Accept values emitted by the lexer
-    lres = lexfam.run_family(ck, 20 if tier == "quick" else 400, 3, with_reset=False)
+    lres = lexfam.run_family(ck, 20 if tier == "quick" else 150, 3, with_reset=False)
     for r in lres:
         if r["rc"] != 0:
             continue
